@@ -79,7 +79,7 @@ def trees(depth, rng, limit):
 
 SCALARS = [None, True, False, 0, 1, -1, 2, 3, 4, 5, -3, -4, BIG, BIG + 1, 2 ** 63 - 1, 2 ** 63, 2 ** 64, 10 ** 18 + 1, -(2 ** 63),
            10 ** 400, 0.0, 1.0, 0.5, -1.5, 2.5, 2.5000001, 2.6, -1.6, 0.1, 0.3, 0.30000000000000004, 0.29, 0.35, 0.25, 1e-320,
-           1e308, FMAX, -FMAX, INF, -INF, NAN, 2.0 ** 60, 1.00000001, '', 'a', 'abc', 'abcd', '5', '1.5', 'a\0b', 'ä', 'z',
+           1e308, FMAX, -FMAX, INF, -INF, NAN, 2.0 ** 60, 1.00000001, '', 'a', 'abc', 'abcd', '5', '1.5', 'a\0b', 'ä', 'z', ' a', 'a ', ' ab ', 'a\n', '\ta', ' ', '"q"', "it's",
            b'', b'a', b'abcd', b'\x00\xff', 'QQ==', '!!!!', 'QR==']
 
 
